@@ -51,8 +51,8 @@ func classify(multiline bool, pattern, in string, on, off result) string {
 				return "prefilter:last-literal-assumed-at-end-anchor"
 			}
 		}
-		if unsoundTrie(re) {
-			return "prefilter:trie-prefix-joined-to-non-leading-literal"
+		if trieShape(re) {
+			return "prefilter:trie-prefix-joined-to-non-adjacent-literal"
 		}
 		return "unclassified:false-negative:" + pattern
 	case !off.ok && on.ok:
@@ -153,54 +153,24 @@ func endsWithTextAnchor(re *syntax.Regexp) bool {
 	return false
 }
 
-// unsoundTrie: somewhere a two-element concatenation [literal, alternation]
-// (the shape produced by prefix factoring) has a branch that does not start
-// with a literal, so that prefix+literal-of-that-branch is not a substring of
-// every match.
-func unsoundTrie(re *syntax.Regexp) bool {
+// trieShape: somewhere a two-element concatenation [literal, X] with X (under
+// captures) an alternation or a concatenation — the shape on which the
+// prefilter glues the literal in front of literals extracted from X
+// ("trie reconstruction"), although those need not be adjacent to it.
+func trieShape(re *syntax.Regexp) bool {
 	if re.Op == syntax.OpConcat && len(re.Sub) == 2 && re.Sub[0].Op == syntax.OpLiteral {
-		if branchNotLeadingLiteral(re.Sub[1], true) {
+		x := re.Sub[1]
+		for x.Op == syntax.OpCapture {
+			x = x.Sub[0]
+		}
+		if x.Op == syntax.OpAlternate || x.Op == syntax.OpConcat {
 			return true
 		}
 	}
 	for _, s := range re.Sub {
-		if unsoundTrie(s) {
+		if trieShape(s) {
 			return true
 		}
-	}
-	return false
-}
-
-func branchNotLeadingLiteral(re *syntax.Regexp, top bool) bool {
-	switch re.Op {
-	case syntax.OpCapture:
-		return branchNotLeadingLiteral(re.Sub[0], top)
-	case syntax.OpAlternate:
-		for _, s := range re.Sub {
-			if branchNotLeadingLiteral(s, false) {
-				return true
-			}
-		}
-		return false
-	case syntax.OpLiteral:
-		return false
-	case syntax.OpConcat:
-		if top {
-			return false
-		}
-		return !startsWithLiteral(re)
-	}
-	return !top
-}
-
-func startsWithLiteral(re *syntax.Regexp) bool {
-	switch re.Op {
-	case syntax.OpLiteral:
-		return true
-	case syntax.OpCapture:
-		return startsWithLiteral(re.Sub[0])
-	case syntax.OpConcat:
-		return len(re.Sub) > 0 && startsWithLiteral(re.Sub[0])
 	}
 	return false
 }
